@@ -213,6 +213,7 @@ def run(cx):
 
     # ---- C10-PROBE ---------------------------------------------------------------------------
     rule_probe(cx, "C10-PROBE")
+    rule_interleave(cx, "C10-INTERLEAVE")
 
     # ---- C10-SOURCES -------------------------------------------------------------------------
     r = cx.rule("C10-SOURCES", "no nondeterministic or environment-dependent source (id/hash/random/time/environ/uuid/listdir) feeds the transpiler", floor=100)
@@ -251,13 +252,16 @@ def rule_probe(cx, rid):
     r = cx.rule(rid, "the firmware text does not depend on the iteration order of the sets a Program carries (helpers, measured sensors), emitting one Program object twice yields the same text (emit() does not consume or mark its input), and the emitter never assigns an attribute of an IR node", floor=4)
 
     def build(desc):
-        us = [l2.decl_node("Ultrasonic", name=n_) for n_ in ("front", "back", "left")]
+        # (names that only differ by case, leading zeros or an underscore: an ordering key that identifies them leaves their
+        # relative order to the set's iteration order)
+        SENSORS = ("front", "back", "left", "Left", "LEFT", "s1", "s01", "s001", "s_1", "S1")
+        us = [l2.decl_node("Ultrasonic", name=n_) for n_ in SENSORS]
         sv = [cls["ServoDecl"](name="s1", pin=9), cls["ServoDecl"](name="s2", pin=10)]
-        loop = [cls["VarAssign"](name="d", expr=f"__redu_ultrasonic_measure_{n_}()") for n_ in ("front", "back", "left")]
+        loop = [cls["VarAssign"](name="d", expr=f"__redu_ultrasonic_measure_{n_}()") for n_ in SENSORS]
         kw = dict(setup_body=us + sv, loop_body=loop, target_port=None, global_decls=[cls["VarDecl"](name="d", c_type="float", expr="0", global_scope=True)], functions=[])
         for fname, ann, _d in fields["Program"]:
             if fname in ("helpers", "ultrasonic_measurements"):
-                items = {"helpers": ["list", "len"], "ultrasonic_measurements": ["front", "back", "left"]}[fname]
+                items = {"helpers": ["list", "len"], "ultrasonic_measurements": list(SENSORS)}[fname]
                 # the parser hands over sets: probe both iteration orders
                 kw[fname] = ProbeSet(items, descending=desc)
         try:
@@ -477,3 +481,68 @@ def rule_global_state(cx, rid, mods, floor=40, only=None):
     fresh = isinstance(ctx_src, (ast.Dict, ast.Name)) and fresh_value(ctx_src) and (isinstance(ctx_src, ast.Dict) or isinstance((floc.defs.get(ctx_src.id) or [None])[0], ast.Dict))
     r.check(fresh, "parse/fresh-ctx", (pm, pf), "parse() must build its context from a fresh dict literal whose values are fresh literals")
 
+
+INTERLEAVE = {
+    # label: script.  Each leaves something behind only if the transpiler keeps state: tracked list literals that are mutated,
+    # helper names that shadow builtins, library-heavy sketches, sensors, plain sketches
+    "list-literal-mutated": "xs = [1, 2, 3]\nxs.append(4)\nxs.remove(1)\ncount = len(xs)\nwhile True:\n    count = count + 1\n",
+    "same-list-literal-read": "xs = [1, 2, 3]\nsteps = len(xs)\nwhile True:\n    steps = steps + 1\n",
+    "helper-named-like-a-builtin": "def max(a, b):\n    return a\ndef abs(a):\n    return a\nwhile True:\n    m = max(1, 2)\n    n = abs(-3)\n",
+    "builtins-on-literals": "from Reduino.Utils import sleep\nwhile True:\n    sleep(abs(-250))\n    sleep(max(10, 20))\n",
+    "servo-and-displays": "from Reduino.Actuators import Servo\nfrom Reduino.Displays import LCD\nsv = Servo(9)\nl0 = LCD(i2c_addr=0x27)\nl1 = LCD(rs=12, en=11, d4=5, d5=4, d6=3, d7=2)\nwhile True:\n    sv.write(90)\n    l0.write(0, 0, 'a')\n    l1.write(0, 0, 'b')\n",
+    "two-sensors": "from Reduino.Sensors import Ultrasonic\nfront = Ultrasonic(2, 3)\nback = Ultrasonic(4, 5)\nwhile True:\n    a = front.measure_distance()\n    b = back.measure_distance()\n",
+    "led-only": "from Reduino.Actuators import Led\nled = Led(13)\nwhile True:\n    led.toggle()\n",
+    "string-and-fstring": "name = 'ab'\nn = len(name)\nwhile True:\n    msg = f'{name}:{n}'\n",
+}
+
+
+def _fresh_import():
+    for k_ in [k_ for k_ in dl.Interp._SYNTH if k_[0].startswith("transpile/")]:
+        del dl.Interp._SYNTH[k_]
+
+
+def rule_interleave(cx, rid):
+    """transpilation as a function of the script only: inside ONE simulated process (module-level tables are shared objects,
+    memoising decorators keep their memo, class-level attributes persist) every script of a corpus is transpiled, then all of
+    them again in another order; each text must equal the text the script gets in a fresh process of its own"""
+    from .. import pe
+    pm, em = mod("transpile/parser.py"), mod("transpile/emitter.py")
+    cx.consulted(pm)
+    cx.consulted(em)
+    r = cx.rule(rid, "a corpus of scripts (tracked list literals that are mutated / read, helpers named like builtins / builtins on literals, servo+LCD / sensors / LED-only sketches) transpiled one after the other in one simulated process (module-level tables and memo tables are shared objects across calls), twice and in two orders: every text equals the text of the same script transpiled alone in a fresh process", floor=16, exhaustive=True)
+
+    def transpile(src, ms):
+        _it, out = pe.parse_source(src, module_state=ms)
+        if out.kind != "return":
+            return ("rejected", str(out.value))
+        o2 = pe.emit_prog(out.value, module_state=ms)
+        return (o2.kind, o2.value)
+
+    try:
+        alone = {}
+        for label, src in INTERLEAVE.items():
+            _fresh_import()
+            alone[label] = transpile(src, {})
+        _fresh_import()
+        ms = {}
+        order1 = list(INTERLEAVE)
+        order2 = list(reversed(order1))
+        seq = []
+        for label in order1 + order2 + order1[:2]:
+            seq.append((label, transpile(INTERLEAVE[label], ms)))
+    except dl.Unsupported as e:
+        raise AnalysisError(f"the transpiler left the evaluable subset on the interleaving corpus: {e}")
+    finally:
+        _fresh_import()
+    for i_, (label, got) in enumerate(seq):
+        want = alone[label]
+        if got == want:
+            r.ok(f"{label}@{i_}")
+            continue
+        before = [l_ for l_, _g in seq[:i_]]
+        if got[0] == "return" and want[0] == "return":
+            diff = next((f"{b!r} (alone: {a!r})" for a, b in zip(want[1].split(chr(10)) + [""] * 500, got[1].split(chr(10)) + [""] * 500) if a != b), "?")
+        else:
+            diff = f"{got[0]}:{str(got[1])[:80]} (alone: {want[0]}:{str(want[1])[:80]})"
+        r.fail(f"interleave[{label}]/same-text-as-alone", (pm, pm.func("parse")), f"script `{label}` transpiled after {before[-3:] or 'nothing'} in the same process differs from its text in a fresh process: {diff}", detail={"position": i_, "before": before})
+    return r
